@@ -141,6 +141,36 @@ theorem key_is_scan_and_sequence (resultFiles : List (List ResultRow)) (parsed :
     | none => simp [lookupRes, lookupKV]
     | some q => simp
 
+/-- "MS/MS rows without a match (or from raw files absent from the results) are dropped": with a
+    non-empty results dictionary, an MS/MS row is dropped when no result row carries its raw file
+    (in particular), or none carries its (raw file, scan number, modified sequence). -/
+theorem unmatched_dropped (resultFiles : List (List ResultRow)) (parsed : List ParsedResult)
+    (hparse : resultFiles.flatten.mapM parseResultRow = .ok parsed) (hne : parsed ≠ [])
+    (scoreCol pepCol : Nat) (row : Row) (p : Psm) (scan : Int) (hscan : p.scan = some scan)
+    (hno : ∀ q ∈ parsed, ¬ (q.raw = p.raw ∧ q.scan = scan ∧ q.modSeq = p.modSeq)) :
+    rule (parsed.foldl insertParsed []) scoreCol pepCol row p = none := by
+  rw [(key_is_scan_and_sequence resultFiles parsed hparse).2 scoreCol pepCol row p scan hne hscan]
+  have : parsed.reverse.find? (fun q => decide (q.raw = p.raw ∧ (q.scan, q.modSeq) = (scan, p.modSeq))) = none := by
+    rw [List.find?_eq_none]
+    intro q hq
+    have hq' : q ∈ parsed := List.mem_reverse.mp hq
+    have := hno q hq'
+    simp only [Prod.mk.injEq, decide_eq_true_eq]
+    exact this
+  rw [this]; rfl
+
+/-- the driver's entry point `mergeRaw` resolves the result-file headers (native Percolator or
+    mokapot layout) and then is `merge` -/
+theorem mergeRaw_spec (rawResults : List (List Row)) (files : List (List Row)) (out : List Row)
+    (h : mergeRaw rawResults files = .ok out) :
+    ∃ rfs, rawResults.mapM resultRowsOf = .ok rfs ∧ merge rfs files = .ok out := by
+  unfold mergeRaw at h
+  cases hr : rawResults.mapM resultRowsOf with
+  | error e => simp [bind, Except.bind, hr] at h
+  | ok rfs =>
+    simp only [bind, Except.bind, hr] at h
+    exact ⟨rfs, rfl, h⟩
+
 /-- "raw-file names containing underscores": a PSM id `<raw>_<scan>_<a>_<b>` whose last two parts
     contain no underscore is read as raw file `<raw>` — whatever underscores `<raw>` contains —
     and the scan number `<scan>`. -/
